@@ -177,6 +177,20 @@ def run(ctx, ck):
     mainf = m.func('mininec.main')
     opts = registered_options(mainf)
     by_dest = analyse_reader(m, mainf, opts)
+    # the reader model from the symbolic walk of main (exact per field count) takes precedence over
+    # the pattern-based tables wherever it covers an option
+    from ..mainx import reader_model
+    rmodel = reader_model(ctx)
+    for dest_, om_ in rmodel.items():
+        o_ = by_dest.get(dest_)
+        if o_ is not None and om_.accepted:
+            o_.model = om_
+            o_.arity = (min(om_.accepted), max(om_.accepted) if max(om_.accepted) < 12 else INF)
+            o_.arity_source = 'symbolic walk of main, %d paths' % om_.npaths
+    ck.info('reader_model_options', sorted(d_ for d_, om_ in rmodel.items() if om_.accepted))
+    ck.floor('options covered by the symbolic reader model', len([1 for om_ in rmodel.values() if om_.accepted]), 15)
+    ck.floor('tag fields found by the reader model', sum(len(om_.tags) for om_ in rmodel.values()), 12)
+    ck.floor('converted fields found by the reader model', sum(len(om_.conv) for om_ in rmodel.values()), 60)
     ck.floor('registered options', len(set(opts.values())), 36)
     ck.floor('options with extracted arity', sum(1 for o in by_dest.values() if o.arity), 28)
     rows, unresolved = writer_table(ctx)
@@ -234,6 +248,9 @@ def run(ctx, ck):
         elif o.arity is not None:
             a0, a1 = o.arity
             ok = a0 <= mn and mx <= a1
+            om = getattr(o, 'model', None)
+            if om is not None and mx < INF:
+                ok = all(k_ in om.accepted or (k_ >= 12 and a1 >= INF) for k_ in range(mn, mx + 1))
             ob_once('R-WR.arity', key_of(f, name, 'fields%s-%s' % (mn, 'n' if mx >= INF else mx)), ok, f.loc(node),
                   '%s writes %s..%s fields, reader accepts %s..%s (%s)'
                   % (shape, mn, 'n' if mx >= INF else mx, a0, 'n' if a1 >= INF else a1, o.arity_source))
@@ -243,12 +260,20 @@ def run(ctx, ck):
         nfields = len(fields)
         for i, fld in enumerate(fields):
             convs = [p for p in fld if p[0] == 'conv']
-            want = o.field_conv.get(i)
-            if want is None and i == nfields - 1 and o.arity and nfields == o.arity[1]:
+            om = getattr(o, 'model', None)
+            if om is not None and nfields in om.accepted:
+                want = om.conv_at(nfields, i)
+            else:
+                want = o.field_conv.get(i)
+            if om is not None and nfields in om.accepted:
+                pass
+            elif want is None and i == nfields - 1 and o.arity and nfields == o.arity[1]:
                 want = o.field_conv.get('last')
-            if want is None and i == 0 and 'popped0' in o.field_conv and o.arity and nfields == o.arity[1]:
+            if om is not None and nfields in om.accepted:
+                pass
+            elif want is None and i == 0 and 'popped0' in o.field_conv and o.arity and nfields == o.arity[1]:
                 want = o.field_conv.get('popped0')
-            if want is None:
+            if want is None and not (om is not None and nfields in om.accepted):
                 want = o.field_conv.get('*')
             if want == 'complex':
                 # %g%+gj : real conv, then imaginary conv with '+' flag, then literal j
@@ -277,7 +302,11 @@ def run(ctx, ck):
                 ob_once('R-WR.conversion', key_of(f, name, 'int-field%d<-%s' % (i, canon_k(at_ or ''))), okc, f.loc(node),
                       'field %d read with int(), written with %s of %s' % (i, c[1], at_))
         # tag fields
-        for tf in o.tag_fields:
+        om = getattr(o, 'model', None)
+        tag_list = list(o.tag_fields)
+        if om is not None and nfields in om.accepted:
+            tag_list = [i_ for i_ in range(nfields) if om.is_tag(nfields, i_)]
+        for tf in tag_list:
             idx = None
             if tf == 'last':
                 if o.arity and nfields == o.arity[1]:
